@@ -154,6 +154,8 @@ def run(ctx):
                        "missing %s neighbour: slots %s, zero-weight slots %s" % (diag_dir, dirs, [d for d, _ in zero]), at=at)
     missing = [k for k in ["arm(q=%d,%s)" % (q, p) for q in range(4) for p in ("present", "absent")] if k not in seen]
     ctx.report("arms", FN + ":all-8-arms-extracted", not missing, "arms not found: %s" % missing, at=b.span)
+    from rules.c03_vertices import hash_with_dxdy_wrap
+    hash_with_dxdy_wrap(ctx, crate, clause="input")
     ctx.not_decided("that hash_with_dxdy returns the right (h, dx, dy) in the first place (C03, float numerics)")
     ctx.assume("dx, dy in [0, 1] (C03's undecided float clause) for the sign claims")
     ctx.extra["exhaustive"] = True
